@@ -20,6 +20,7 @@ type verifStepCfg struct {
 	role            int  // 0 case split, 1 controlling, 2 controlled
 	maxPend         int  // 0 => 2
 	liteFixed       int  // with lite==0: 1 forces a lite agent
+	nominating      bool // controlling: the selector's nominatedPair may be set
 	smallPrio       bool // candidate priorities range over 1..256 instead of all 32 bits
 }
 
@@ -130,6 +131,8 @@ func verifInboundStep(cfg verifStepCfg) *verifStep {
 		p.state = CandidatePairState(verifInt(1, 4))
 		p.nominated = verifBool()
 		p.nominateOnBindingSuccess = verifBool()
+		p.renominateOnBindingSuccess = verifBool()
+		verifAssume(verifImplies(p.renominateOnBindingSuccess, p.nominateOnBindingSuccess)) // Inv: a deferred renomination is a deferred nomination
 	}
 	// priorities: symbolic through the override (candidates keep their real code path)
 	prio := func() uint32 {
@@ -153,6 +156,14 @@ func verifInboundStep(cfg verifStepCfg) *verifStep {
 		verifAssume(verifAnd(sp.state == CandidatePairStateSucceeded, sp.nominated))
 		a.selectedPair.Store(sp)
 		a.connectionState = ConnectionStateConnected
+	}
+	// a controlling agent may be in the middle of nominating a validated pair
+	if cs, ok := a.selector.(*controllingSelector); ok && cfg.nominating {
+		if k := verifChoice(len(a.checklist)+1) - 1; k >= 0 {
+			np := a.checklist[k]
+			verifAssume(verifAnd(np.state == CandidatePairStateSucceeded, np.nominated))
+			cs.nominatedPair = np
+		}
 	}
 	if cs, ok := a.selector.(*controlledSelector); ok && cfg.renomination && verifChoice(2) == 1 {
 		v := verifU32() & 0xFFFFFF
